@@ -34,7 +34,11 @@ let () =
            let out = run (f1 = "1") (f2 = "1") (srv_init (n sch) (n ali) (n seed))
                          (spec_init (n sch) (n ali)) rs in
            let ok = hist_ok (spec_init (n sch) (n ali)) rs in
-           print_endline ((if ok then "H1" else "H0") ^ " " ^
+           (* index (0-based) of the first request that makes hist_ok false *)
+           let rec take k l = if k = 0 then [] else (match l with [] -> [] | x :: t -> x :: take (k-1) t) in
+           let rec first k = if k > List.length rs then (-1)
+             else if not (hist_ok (spec_init (n sch) (n ali)) (take k rs)) then k - 1 else first (k+1) in
+           print_endline ((if ok then "H1" else ("H0@" ^ string_of_int (first 1))) ^ " " ^
                           String.concat " " (List.map (fun (a, b) -> rep a ^ "|" ^ rep b) out))
          | _ -> failwith "bad header")
       | [] -> print_endline ""
